@@ -30,10 +30,13 @@ import athlib.utils as U
 import jsonschema
 from jsonschema.exceptions import SchemaError, ValidationError
 OK = {ok}
-class V(object):
+class V1(object):
     @classmethod
     def check_schema(cls, schema):
-        if not OK.get(('schema', schema), True): raise SchemaError('stub')
+        if not OK.get(('schema', schema, cls.__name__), True): raise SchemaError('stub')
+class V2(V1):
+    pass
+VS = dict(V1=V1, V2=V2)
 def fake_validate(data, schema):
     if not OK.get(('doc', data, schema), True): raise ValidationError('stub')
 U.jsonschema.validate = fake_validate
@@ -49,7 +52,7 @@ U.json = J
 def call(kind, key, ef):
     try:
         with contextlib.redirect_stdout(io.StringIO()):
-            r = U.schema_valid(key, V, ef) if kind == 'schema' else U.valid_against_schema(key[0], key[1], ef)
+            r = U.schema_valid(key[0], VS[key[1]], ef) if kind == 'schema' else U.valid_against_schema(key[0], key[1], ef)
         return ('value', r)
     except (SchemaError, ValidationError) as e:
         return ('raises', type(e).__name__)
@@ -110,11 +113,15 @@ class _J(object):
 def install_stubs(utils, okf):
     from jsonschema.exceptions import SchemaError, ValidationError
 
-    class V(object):
+    class V1(object):
         @classmethod
         def check_schema(cls, schema):
-            if not bool(okf(('schema', schema))):
+            if not bool(okf(('schema', schema, cls.__name__))):
                 raise SchemaError('stub')
+
+    class V2(V1):
+        pass
+    V = dict(V1=V1, V2=V2)
 
     def fake_validate(data, schema):
         if not bool(okf(('doc', data, schema))):
@@ -141,10 +148,11 @@ def body(kind, m, ncalls, restricted):
         utils._schema_valid_cache.clear()
         utils._valid_against_schema_cache.clear()
         if kind == 'schema':
-            names = ['s%02d' % i for i in range(m)]
-            ck = lambda n: (n, V)
-            okkey = lambda n: ('schema', n)
-            fresh_names = ['new_a', 'new_b']
+            # the same schema file may be remembered for two validator classes
+            names = [('s%02d' % (i // 2 if i < 6 else i), 'V1' if i % 2 == 0 or i >= 6 else 'V2') for i in range(m)]
+            ck = lambda n: (n[0], V[n[1]])
+            okkey = lambda n: ('schema', n[0], n[1])
+            fresh_names = [('new_a', 'V1'), ('new_a', 'V2'), ('s00', 'V2') if m < 2 else ('new_b', 'V2')]
         else:
             names = [('d%02d' % i, 's%02d' % (i % 3)) for i in range(m)]
             ck = lambda n: n
@@ -154,7 +162,7 @@ def body(kind, m, ncalls, restricted):
             cache[ck(n)] = okf(okkey(n))          # invariant: remembered answer == validator outcome
         choices = list(names) + fresh_names
         if restricted and m > 3:
-            choices = [names[0], names[m // 2], names[-1]] + fresh_names
+            choices = [names[0], names[1], names[m // 2], names[-1]] + fresh_names
         calls = []
         model_inputs = {'kind': kind, 'pre': list(names), 'calls': calls, 'ok': oks}
         R.partial = {'inputs': model_inputs}
@@ -167,7 +175,7 @@ def body(kind, m, ncalls, restricted):
             had = ck(key) in cache
             try:
                 if kind == 'schema':
-                    r = utils.schema_valid(key, V, ef)
+                    r = utils.schema_valid(key[0], V[key[1]], ef)
                 else:
                     r = utils.valid_against_schema(key[0], key[1], ef)
                 outcome = 'value'
@@ -185,7 +193,13 @@ def body(kind, m, ncalls, restricted):
                 eng.check(z3.And(z3.Not(ok.term), z3.BoolVal(ef)), 'history')
             # invariant again, and the size bound
             for k2, v2 in cache.items():
-                n2 = k2[0] if kind == 'schema' else k2
+                if kind == 'schema':
+                    vn = [nm for nm, cls in V.items() if cls is k2[1]] if isinstance(k2, tuple) and len(k2) == 2 else []
+                    if not vn:
+                        raise hc.PathFail('invariant', 'cache key %r does not identify (file, validator)' % (k2,))
+                    n2 = (k2[0], vn[0])
+                else:
+                    n2 = k2
                 vt = v2.term if isinstance(v2, SymBool) else z3.BoolVal(bool(v2))
                 eng.check(vt == okf(okkey(n2)).term, 'invariant')
             if len(cache) > 20:
@@ -289,11 +303,11 @@ def run(chk, only=None):
                 jobs.append((kind, m, 3, True))
     chk.functions = ['athlib.utils.schema_valid', 'athlib.utils.valid_against_schema', 'athlib.utils._add_to_cache', 'athlib.utils.localpath']
     chk.stubs = ['open()/json.load: a token per file name; validator.check_schema / jsonschema.validate: raise SchemaError / ValidationError iff not ok(file[, schema]) '
-                 'with ok an uninterpreted Boolean per key (one validator class)', 'pre-state invariant: every remembered answer equals ok(key); shown inductive (checked after every call)',
+                 'with ok an uninterpreted Boolean per (file, validator class) resp. (document, schema); two validator classes', 'pre-state invariant: every remembered answer equals ok(key); shown inductive (checked after every call)',
                  'bundled sample / schema facts: concrete runs of the plain library with sockets disabled (not solver results)']
     chk.bounds = {'cache_entries': '0..20 (every size) for one call; call sequences of 2%s on selected sizes' % ('' if quick else ' and 3'),
                   'call_key': 'any remembered key or a fresh one (sequences on sizes > 3: first / middle / last remembered key or two fresh keys)', 'expect_failure': [False, True]}
-    chk.outside = ['more than one validator class per schema key in one history; behaviour of jsonschema itself; concurrent callers (C16)']
+    chk.outside = ['more than two validator classes; behaviour of jsonschema itself; concurrent callers (C16)']
     bundled_files(chk)
     pool.run_jobs(chk, worker, jobs, chunksize=1)
     chk.extra['functions_loaded_through_hook'] = hc.functions_loaded()
